@@ -642,11 +642,42 @@ class Interp:
         return out
 
     # ---- one step ---------------------------------------------------------
+    def _side_show(self):
+        """While no street is in progress but the hand is not over (hands are
+        being killed, chips pushed or pulled by hand) a player who is still
+        in may table his face-down cards by explicit index - the documented
+        non-standard show.  ``cfg['side_shows']``."""
+        s = self.state
+        if not self.cfg.get('side_shows') or s.street is not None \
+                or not s.status or self.tape.next() % 3:
+            return None
+        live = [i for i in s.player_indices if s.statuses[i]
+                and s.hole_cards[i] and not all(s.hole_card_statuses[i])
+                and all(bool(c) for c in s.hole_cards[i])]
+        if not live:
+            return None
+        i = self._pick(live, self.tape.next())
+        if not s.can_show_or_muck_hole_cards(True, i):
+            return None
+        kind, args = 'show_or_muck_hole_cards', (True, i)
+        if self.hooks is not None:
+            self.hooks.before(self, kind, args)
+        n0 = len(s.operations)
+        result = s.show_or_muck_hole_cards(True, i)
+        self.steps.append((kind, args))
+        self.side_show_ops = getattr(self, 'side_show_ops', []) + [n0]
+        if self.hooks is not None:
+            self.hooks.after(self, kind, args, result)
+        return kind
+
     def step(self):
         s = self.state
         kinds = self.enabled()
         if not kinds:
             return None
+        done = self._side_show()
+        if done is not None:
+            return done
         t = self.tape
         betting = [k for k in kinds if k in BETTING_KINDS]
         if betting:
